@@ -43,7 +43,7 @@ LEAN_MODULES = {
     "C13": ["TFV.Properties.Net", "TFV.Properties.Gray"],
     "C14": ["TFV.Properties.SelfConf"],
     "C15": ["TFV.Properties.Adapt"],
-    "C16": ["TFV.Properties.Split", "TFV.Properties.Src.GetNJobs"],
+    "C16": ["TFV.Properties.Split", "TFV.Properties.Src.GetNJobs", "TFV.Properties.Src.SplitPop"],
     "C17": ["TFV.Properties.EA", "TFV.Properties.Heap", "TFV.Properties.Src.UpdateData"],
     "C18": ["TFV.Properties.Estim"],
     "C19": ["TFV.Properties.Metrics", "TFV.Properties.Src.MetricCounts"],
@@ -70,7 +70,7 @@ SRC_KERNELS = {
             "Tree_subtree_id", "Tree_subtree", "Tree_concat", "get_levels_tree_from_i", "Tree_get_levels", "Tree_get_max_level",
             "standard_crossover", "Tree_get_common_region", "one_point_crossoverGP"],
     "C11": ["binary_search_interval", "check_for_value", "argsort_k", "tournament_selection", "proportional_selection", "rank_selection", "sattolo_shuffle", "random_sample", "random_weighted_sample"],
-    "C16": ["get_n_jobs"],
+    "C16": ["get_n_jobs", "EA_split_population"],
     "C17": ["EA_update_data"],
     "C19": ["recall_counts", "precision_counts", "f1_counts"],
 }
